@@ -81,7 +81,21 @@ static inline bool make_vec(const vj::Value& d, uint32_t id, a64::Vec& out) {
     ET et;
     if (arr == "B") et = ET::kB; else if (arr == "H") et = ET::kH; else if (arr == "S") et = ET::kS; else if (arr == "D") et = ET::kD;
     else if (arr == "4B") et = ET::kB4; else if (arr == "2H") et = ET::kH2; else return false;
-    out = a64::Vec::make_v128_with_element_index(et, uint32_t(ei), id);
+    // The operand is built the way user code builds it: directly, through the typed lane accessors, or by re-indexing a
+    // lane operand with at() - all three must denote the requested lane.
+    unsigned how = unsigned(id + uint32_t(ei)) % 3u;
+    uint32_t lanes = et == ET::kB ? 16u : et == ET::kH ? 8u : et == ET::kS ? 4u : et == ET::kD ? 2u : 4u;
+    if (how == 1 && (et == ET::kB || et == ET::kH || et == ET::kS || et == ET::kD) && uint32_t(ei) < lanes) {
+      a64::Vec v = a64::Vec::make_v128(id);
+      out = et == ET::kB ? v.b(uint32_t(ei)) : et == ET::kH ? v.h(uint32_t(ei)) : et == ET::kS ? v.s(uint32_t(ei)) : v.d(uint32_t(ei));
+    }
+    else if (how == 2 && uint32_t(ei) < lanes) {
+      uint32_t other = (uint32_t(ei) + 1u + (id & 1u) * 2u) % lanes;         // some other lane first, then at(ei)
+      out = a64::Vec::make_v128_with_element_index(et, other, id).at(uint32_t(ei));
+    }
+    else {
+      out = a64::Vec::make_v128_with_element_index(et, uint32_t(ei), id);
+    }
     return true;
   }
   if (arr == "8B") out = a64::Vec::make_v64_with_element_type(ET::kB, id);
